@@ -33,7 +33,11 @@ LEVEL_TEXT = ("Lean, for every input: == and != never let ConversionNotFound esc
               "python -O changes nothing there: the search returns the same path and interns the same units in both modes, and a "
               "directly settled conversion succeeds in both modes with the same result (path_search_mode_independent, "
               "direct_conversion_mode_independent; Proofs/PathMode: every action of the search is oblivious of the flag except "
-              "the one assert of _reduce_dimension, which holds for units of one dimension). "
+              "the one assert of _reduce_dimension, which holds for units of one dimension). THROUGH THE FACTOR PLANNER, for "
+              "conversions between simple units (products of powers of prefixed base units of fundamental, independent dimensions "
+              "whose pairing exhausts both sides): convert returns a quantity or raises ConversionNotFound and nothing else "
+              "(simple_conversion_only_not_found: _inline_paths total, plan application cannot divide by zero) and python -O "
+              "returns the same result (simple_conversion_mode_independent). "
               "That no AssertionError escapes the factor-matching PLANNER is false for the pinned code (known findings, by structural class); outside those classes the "
               "claim rests on the kernel-evaluated family - identical outcomes with assertions on and off (family_dashO_same) - on "
               "differential execution of the model in both modes against python and python -O, and on the oracle.")
@@ -48,6 +52,8 @@ THEOREMS = [
     "Measured.Obligations.family_dashO_same",
     "Measured.findPath_total", "Measured.C07.path_search_never_raises",
     "Measured.C07.path_search_mode_independent", "Measured.C07.direct_conversion_mode_independent",
+    "Measured.C07.simple_conversion_only_not_found", "Measured.C07.simple_conversion_mode_independent",
+    "Measured.convert_simple_total", "Measured.convert_simple_mode",
 ]
 LEAN_TARGETS = ["Props.C07", "Obligations.C07"]
 QUICK = {"chunks": 3, "ops": 1200}
